@@ -1,3 +1,5 @@
+#include <signal.h>
+#include <sys/time.h>
 #include <unistd.h>
 
 #include "VM/include/verif_hook.hpp"
@@ -6,6 +8,25 @@
 namespace sim {
 
 volatile int *g_phase_slot = nullptr;
+volatile long long g_progress = 0;
+
+static volatile long long g_guard_last = -1;
+static volatile int g_guard_idle = 0, g_guard_stall_ticks = 0, g_guard_hard_ticks = 0, g_guard_run_ticks = 0;
+static void guard_tick(int) {
+  g_guard_run_ticks = g_guard_run_ticks + 1;
+  if (g_progress == g_guard_last) g_guard_idle = g_guard_idle + 1; else { g_guard_last = g_progress; g_guard_idle = 0; }
+  if (g_guard_stall_ticks > 0 && g_guard_idle >= g_guard_stall_ticks) _exit(99);
+  if (g_guard_hard_ticks > 0 && g_guard_run_ticks >= g_guard_hard_ticks) _exit(98);
+}
+void arm_guard(int stall_s, int hard_s) {
+  const int tick = 2;
+  g_guard_stall_ticks = stall_s / tick; g_guard_hard_ticks = hard_s / tick; g_guard_idle = 0; g_guard_run_ticks = 0; g_guard_last = -1;
+  struct sigaction sa; memset(&sa, 0, sizeof sa); sa.sa_handler = guard_tick; sa.sa_flags = SA_RESTART;
+  sigaction(SIGALRM, &sa, nullptr);
+  struct itimerval it; it.it_interval.tv_sec = tick; it.it_interval.tv_usec = 0; it.it_value = it.it_interval;
+  setitimer(ITIMER_REAL, &it, nullptr);
+}
+void run_started() { g_guard_run_ticks = 0; g_guard_idle = 0; bump_progress(); }
 
 // ------------------------------------------------------------------------------------------- plan <-> json
 static Json ops_to_json(const std::vector<Op> &ops) {
@@ -123,10 +144,10 @@ bool Ctx::fail(const std::string &prop, const std::string &oracle, const std::st
 
 // ------------------------------------------------------------------------------------------- hook dispatch
 static HookSink *g_sink = nullptr;
-static void hook_trampoline(int site, long a, long b) { if (g_sink) g_sink->on_point(site, a, b); }
+static void hook_trampoline(int site, long a, long b) { g_progress = g_progress + 1; if (g_sink) g_sink->on_point(site, a, b); }
 void install_hook(HookSink *s) {
   g_sink = s;
-  Theo::verif::point_hook = s ? hook_trampoline : nullptr;
+  Theo::verif::point_hook = hook_trampoline;   // always installed: every hook event counts as progress for the stall guard
 }
 
 // ------------------------------------------------------------------------------------------- dispatch
@@ -154,6 +175,7 @@ Outcome exec_plan(const Plan &plan, bool trace, const std::string &only_oracle) 
   Ctx ctx;
   ctx.focus = plan.prop; ctx.trace = trace; ctx.only_oracle = only_oracle;
   Outcome out;
+  install_hook(nullptr);
   set_phase(PH_HARNESS);
   try {
     if (plan.world == "vm") exec_vm_plan(plan, ctx, out);
